@@ -706,7 +706,7 @@ static std::vector<Instance> instances(const std::string &tier) {
 	std::vector<size_t> pagesb = {8, 200, 256, 257, 1025, 3000};
 	int F = c04 ? (th ? 2 : 1) : 0;
 	std::string sfx = c04 ? "-fail" + std::to_string(F) : "";
-	int D = th ? 7 : 5;       // depth cap of the full-alphabet runs
+	int D = th ? (c04 ? 6 : 7) : 5;       // depth cap of the full-alphabet runs (with failure variants and 2 failures per history depth 7 does not finish)
 	const int FIX = 1 << 30;  // no depth cap: run to fixpoint
 	if(!c04) {   // (longest first: the driver starts instances in list order)
 		for(int b = 0; b < 3; b++) {
